@@ -1,6 +1,7 @@
 package main
 
 import (
+	"sync"
 	"fmt"
 	"go/token"
 	"go/types"
@@ -1013,6 +1014,9 @@ func (r *FnRun) assertAtName(st *State, site ssa.Instruction, name string, args 
 		if want > 0 && r.matchOrdinal(site, pat) != want {
 			continue
 		}
+		assertAtHitMu.Lock()
+		assertAtHit[aa] = true
+		assertAtHitMu.Unlock()
 		env := &Env{r: r, st: st, old: r.entry, vars: map[string]Val{}, fn: r.Fn, pkg: r.entryEnv.pkg, block: site.Block()}
 		for k, v := range r.entryEnv.vars {
 			env.vars[k] = v
@@ -1087,3 +1091,8 @@ func isByteSlice(t types.Type) bool {
 	b, ok := sl.Elem().Underlying().(*types.Basic)
 	return ok && b.Kind() == types.Uint8
 }
+
+var (
+	assertAtHit   = map[*AssertAt]bool{}
+	assertAtHitMu sync.Mutex
+)
